@@ -201,7 +201,12 @@ def ba_case(case):
     shift = float(case.get("shift", 0.0))
     fails = []
     with Capture() as cap:
-        m, p, rows = call_ba(cap, w0 * scale_w, e0 + shift, neql)
+        w_call, e_call = w0 * scale_w, e0 + shift
+        if case.get("wdtype"):
+            w_call = w_call.astype(case["wdtype"])
+        if case.get("edtype"):
+            e_call = e_call.astype(case["edtype"])
+        m, p, rows = call_ba(cap, w_call, e_call, neql)
         if scale_w != 1.0 or shift != 0.0:
             m_b, p_b, rows_b = call_ba(cap, w0, e0, neql)
     w = w0[neql:].tolist()
@@ -276,6 +281,13 @@ def job_words(job):
     if job.get("invariances"):
         variants += [dict(neql=0, wscale=s, shift=0.0) for s in SCALES]
         variants += [dict(neql=0, wscale=1.0, shift=a) for a in SHIFTS]
+        # the same numbers in another array dtype (integer multiplicities / integer-valued samples, float32): "positive
+        # weights of any scale" says nothing about the dtype the caller stores them in
+        if all(float(x).is_integer() for x in WL):
+            variants += [dict(neql=0, wscale=1.0, shift=0.0, wdtype="int64")]
+        if all(float(x).is_integer() for x in SL):
+            variants += [dict(neql=0, wscale=1.0, shift=0.0, edtype="int64")]
+        variants += [dict(neql=0, wscale=1.0, shift=0.0, wdtype="float32")]
     with Capture() as cap:
         su = cap.su
         for var in variants:
@@ -290,8 +302,14 @@ def job_words(job):
                 refs = [vref_block(Wm, Em, b) for b in bs]
                 plat_ref, knife = vref_plateau([r[2] for r in refs], vscale, S.shape[0])
                 w_in = wrow * ws
+                if var.get("wdtype"):
+                    w_in = w_in.astype(var["wdtype"])
+                    res.guard("weights_in_another_dtype", 1)
                 for i in range(S.shape[0]):
                     e_in = S[i] + sh if sh else S[i]
+                    if var.get("edtype"):
+                        e_in = e_in.astype(var["edtype"])
+                        res.guard("samples_in_another_dtype", 1)
                     cap.lines.clear()
                     m, p = su.blocking_analysis(w_in, e_in, neql=neql, printQ=True)
                     rows = cap.table()
